@@ -1,10 +1,11 @@
 package nodes
 
 import (
-	"io"
-	"errors"
 	"bytes"
+	"errors"
 	"fmt"
+	"github.com/andydunstall/piko/server/cluster"
+	"io"
 	"math/rand"
 	"strings"
 	"sync"
@@ -51,7 +52,7 @@ type c01cluster struct {
 	seq   int
 	// statistics
 	local, forwarded, refused, churn, overlapped atomic.Int64
-	inflight                                    atomic.Int64
+	inflight                                     atomic.Int64
 }
 
 var c01HTTPEps = []string{"h1", "h10", "h1-x", "H1", "h1.v2"}
@@ -271,6 +272,25 @@ func runC01Cluster(r *rand.Rand, nNodes, requests, churnOps int, sh *core.Shard)
 		StopAll(nodes)
 	}()
 	eps := append(append([]string{}, c01HTTPEps...), c01TCPEps...)
+	// what a crashed and a departed node leave behind until they expire: routing
+	// entries that are not active but still list every endpoint (at a dead
+	// address). They must never be chosen, and must not hide an active holder.
+	ghostEps := map[string]int{}
+	for _, ep := range eps {
+		ghostEps[ep] = 2
+	}
+	for _, n := range nodes {
+		for _, g := range []struct {
+			id     string
+			status cluster.NodeStatus
+		}{{"ghost-unreachable", cluster.NodeStatusUnreachable}, {"ghost-left", cluster.NodeStatusLeft}} {
+			ge := map[string]int{}
+			for k, v := range ghostEps {
+				ge[k] = v
+			}
+			n.Cluster().AddNode(&cluster.Node{ID: g.id, Status: g.status, ProxyAddr: "127.0.0.1:1", AdminAddr: "127.0.0.1:1", Endpoints: ge})
+		}
+	}
 	for _, ep := range eps {
 		for k := r.Intn(4); k > 0; k-- {
 			if err := c.connect(r, ep, r.Intn(nNodes)); err != nil {
@@ -590,7 +610,7 @@ func runC01(sh *core.Shard, a props.Args) {
 func init() {
 	props.Register(&props.Prop{
 		ID: "C01", Level: "exploration", Race: true, Parallel: 8,
-		Rule: "clusters of 1-4 real in-process nodes joined by gossip; 7 endpoints with near-miss ids (h1, h10, h1-x, H1 and the dotted h1.v2 served over HTTP; t1, t10 over the TCP route) each with 0-3 upstreams on seeded nodes; every upstream stamps its responses/streams with (endpoint, upstream id, node) and echoes a request nonce. Phase 1: 4 request goroutines address random (entry node, endpoint, mode in {first Host label, x-piko-endpoint, conflicting Host+header, the same with the header also listed in Connection, /_piko/v1/tcp}) while a churn goroutine connects, go-aways and disconnects upstreams; every outcome must be {stamp.endpoint == addressed endpoint with the right nonce} or {502, 504}. TCP tunnels are client-speaks-first with a preamble that looks like an HTTP request for another endpoint (an HTTP answer inside a tunnel is a misdelivery). Scenario go-away-then-remote: the entry node's only local upstream announced go-away while another node serves the endpoint; HTTP requests and TCP tunnels are served by that endpoint or refused. Phase 2: churn stops, 'settled' is decided logically (every node's registry equals the harness's open connections and every node's routing table mirrors every other node's own state; 30 s watchdog => inconclusive) and every (entry node, endpoint, mode) is probed: 200 with a stamp of that endpoint iff some upstream exists anywhere, else 502. Non-trivial cluster = saw locally served and forwarded responses and churn events overlapping in-flight requests; distinct = hash of (size, outcome counts, final placement).",
+		Rule: "clusters of 1-4 real in-process nodes joined by gossip; 7 endpoints with near-miss ids (h1, h10, h1-x, H1 and the dotted h1.v2 served over HTTP; t1, t10 over the TCP route) each with 0-3 upstreams on seeded nodes; every routing table also holds an unreachable and a left ghost node that list every endpoint at a dead address (what a crashed / departed node leaves behind until it expires); every upstream stamps its responses/streams with (endpoint, upstream id, node) and echoes a request nonce. Phase 1: 4 request goroutines address random (entry node, endpoint, mode in {first Host label, x-piko-endpoint, conflicting Host+header, the same with the header also listed in Connection, /_piko/v1/tcp}) while a churn goroutine connects, go-aways and disconnects upstreams; every outcome must be {stamp.endpoint == addressed endpoint with the right nonce} or {502, 504}. TCP tunnels are client-speaks-first with a preamble that looks like an HTTP request for another endpoint (an HTTP answer inside a tunnel is a misdelivery). Scenario go-away-then-remote: the entry node's only local upstream announced go-away while another node serves the endpoint; HTTP requests and TCP tunnels are served by that endpoint or refused. Phase 2: churn stops, 'settled' is decided logically (every node's registry equals the harness's open connections and every node's routing table mirrors every other node's own state; 30 s watchdog => inconclusive) and every (entry node, endpoint, mode) is probed: 200 with a stamp of that endpoint iff some upstream exists anywhere, else 502. Non-trivial cluster = saw locally served and forwarded responses and churn events overlapping in-flight requests; distinct = hash of (size, outcome counts, final placement).",
 		Assumptions: []string{
 			"listeners are created both with a background context and, like the agent, with a connect-timeout context cancelled after connecting",
 			"interleavings of churn and requests are sampled by repetition, not enumerated",
